@@ -139,8 +139,8 @@ Proof. eapply region_cons; [vm_compute; split; [discriminate|reflexivity]|vm_com
    other object and every untranslated callee is an arbitrary oracle (the translator checks that such a callee can
    only get the event if it is a function of the same file that never mentions `payload`).
    PARTIAL: for every payload (any bytes, any size), every value byte and whatever the rest of the emulator does,
-   these handlers never read the payload outside the event.  NOT covered: nosv/nanos6 pre_type (memcpy/memchr over
-   the jumbo label), the handlers of the other models (nodes, tampi, mpi, openmp, kernel: table-driven, they read no
+   these handlers never read the payload outside the event.  nosv/nanos6 pre_type (the jumbo label) are covered by
+   C19_pre_type_reads_in_bounds below.  NOT covered: the handlers of the other models (nodes, tampi, mpi, openmp, kernel: table-driven, they read no
    payload, but they are not translated), ev_spec.c:print_arg, parson. *)
 From OV Require Emu.EmuCoreDefs Emu.FootPre Gen.Foot_gen Proofs.FootProofs.
 Theorem C19_handlers_read_in_bounds_partial : forall sx e,
@@ -150,6 +150,28 @@ Theorem C19_handlers_read_in_bounds_partial : forall sx e,
   FootPre.exec (Foot_gen.nanos6_pre_task e) sx <> EmuCoreDefs.Err FootPre.E_OOB.
 Proof. exact FootProofs.handlers_in_bounds. Qed.
 Print Assumptions C19_handlers_read_in_bounds_partial.
+
+(* pre_type of nosv/event.c and nanos6/event.c (VYc / 6Yc, jumbo): `data = &payload->jumbo.data[0]` is the byte offset
+   offsetof(jumbo.data) asked to the compiler, memcpy(&typeid, data, 4) is an explicit read of bytes [data, data + 4),
+   data += 4, memchr(label, 0, payload_size - label_off) an explicit read of that whole range, and the label passed to
+   the untranslated task_type_create requires a NUL at or after it inside the payload (the callee may read the C string
+   there and nothing else of the payload: it gets no other pointer into the event).  For every payload, size and
+   oracle none of these reads leaves the event. *)
+Theorem C19_pre_type_reads_in_bounds : forall sx e,
+  FootPre.exec (Foot_gen.nosv_pre_type e) sx <> EmuCoreDefs.Err FootPre.E_OOB /\
+  FootPre.exec (Foot_gen.nanos6_pre_type e) sx <> EmuCoreDefs.Err FootPre.E_OOB.
+Proof. exact FootProofs.pre_type_in_bounds. Qed.
+Print Assumptions C19_pre_type_reads_in_bounds.
+
+(* a label without its NUL is refused, not read past the end; a terminated one reaches task_type_create *)
+Example C19_ex_pre_type :
+  FootPre.exec (Foot_gen.nosv_pre_type {| FootPre.f_m := 86; FootPre.f_c := 89; FootPre.f_v := 99; FootPre.f_payload := [6; 0; 0; 0; 1; 0; 0; 0; 97; 98]; FootPre.f_jumbo := true |}) FootProofs.ok_oracle
+    = EmuCoreDefs.Err FootPre.E_FAIL /\
+  FootPre.exec (Foot_gen.nosv_pre_type {| FootPre.f_m := 86; FootPre.f_c := 89; FootPre.f_v := 99; FootPre.f_payload := [6; 0; 0; 0; 1; 0; 0; 0; 97; 0]; FootPre.f_jumbo := true |}) FootProofs.ok_oracle
+    = EmuCoreDefs.Ok tt /\
+  FootPre.exec (Foot_gen.nosv_pre_type {| FootPre.f_m := 86; FootPre.f_c := 89; FootPre.f_v := 99; FootPre.f_payload := [4; 0; 0; 0; 1; 0; 0; 0]; FootPre.f_jumbo := true |}) FootProofs.ok_oracle
+    = EmuCoreDefs.Err FootPre.E_FAIL.
+Proof. vm_compute. repeat split. Qed.
 
 (* the explicit reader does detect an out-of-bounds read: i32[1] of a 4-byte payload; and the generated OHx handler
    rejects a 3-byte payload by its size guard and accepts 4 and 16 bytes under the all-success oracle *)
